@@ -98,10 +98,6 @@ fn vp_native_decoding_and_damage() {
                 let req = PreparedRequest::new(Method::GET, "http://a.test/");
                 let b = parse_response(BaseStream::mock(w.clone()), &req, req.url()).unwrap().bytes().unwrap(); cases += 1;
                 assert!(b == p, "bytes(): level {} {} {} framing", level, what, framing);
-                // a HEAD response declares the coding but has no body to decode
-                let head = PreparedRequest::new(Method::HEAD, "http://a.test/");
-                let hb = parse_response(BaseStream::mock(w.clone()), &head, head.url()).unwrap().bytes().unwrap(); cases += 1;
-                assert!(hb.is_empty(), "HEAD response with a declared coding must have an empty body");
             }
         }
     }
